@@ -16,12 +16,14 @@ RULE = ('T2: int(bytes), Headers.element("Range") (Range.parse + prevent_denial_
 	'ComposedResponse.prepare() (status, Content-Range, Content-Type, Content-Length, body) evaluated by the Gallina model (vm_compute) and by the '
 	'implementation on the same inputs: every range 0 <= first < last < n for small n, random representations up to 4096 octets, 2-4 disjoint similar '
 	'ranges in every order, overlapping / dissimilar / suffix / open-ended / out-of-bounds ranges, each precondition of range_conditions switched off, '
-	'single-octet and structured mutations of valid Range values; every multiset of 2-5 range lengths differing by 0..6 octets (both sides of the admission threshold) as disjoint ranges in random order. '
+	'single-octet and structured mutations of valid Range values; byte positions written with signs, underscores, inner / outer blanks, non-ASCII digits and radix / float syntax in every position of a '
+	'range-spec, and empty / blank / non-token / foreign / differently cased range units in front of valid range sets (the two repaired findings, systematically); every multiset of 2-5 range lengths differing by 0..6 octets (both sides of the admission threshold) as disjoint ranges in random order. '
 	'Oracle: the slice / multipart statement directly on the prepared response; which sets of closed ranges must be served is decided by an independent exact-rational restatement of the documented '
 	'admission rule (no two ranges sharing two or more octets, population variance of the range lengths <= 4): admitted and disjoint -> 206 multipart with exactly the slices, refused -> 416 with the complete representation. '
+	'Every Range value outside the RFC 7233 grammar (own regex; white space tolerated around elements, positions and the dash) must not be answered with 206; a unit other than bytes (any case) is never served, and is ignored altogether for a single closed range. '
 	'non-trivial = distinct (kind, input) reaching 206, 416 or a refused precondition')
 EXHAUSTIVE = {'quick': False, 'thorough': False}
-TRUSTED = ['harness/tables/elemlex.py + harness/tables/range.py (T1: bytes.strip set, int() octet classes, pinned split patterns, TSPECIALS, part-header template, BytesIO clamping probes)',
+TRUSTED = ['harness/tables/elemlex.py + harness/tables/range.py (T1: bytes.strip set, int() octet classes, bytes.isdigit class, the two variant probes and the octet class / pinned pattern of Range.RE_UNIT, pinned split patterns, TSPECIALS, part-header template, BytesIO clamping probes)',
 	'harness/props/C20.py + coq/Corr/C20.v (T2 canonicalisation: header values as raw octets, the random multipart boundary is read back from Content-Type and given to the model)',
 	'io.BytesIO seek/read modelled as list slicing (skipn/firstn), validated by CSlice/CPrep cases, not verified']
 ASSUMPTIONS = ['io.BytesIO.seek/read = list slicing (clamping at both ends)', 'positions have fewer than sys.get_int_max_str_digits() digits',
@@ -34,10 +36,8 @@ SPEC = rb'(?:' + WS + rb'(?:[0-9]+' + WS + rb'-' + WS + rb'[0-9]*|-' + WS + rb'[
 LENIENT = re.compile(rb"[!#$%&'*+\-.^_`|~0-9A-Za-z]+=" + SPEC + rb'(?:,' + SPEC + rb')*')
 CLOSED = re.compile(WS + rb'([0-9]+)' + WS + rb'-' + WS + rb'([0-9]+)' + WS)
 
-W_LAX1 = {'k': 'prep', 'v': b'bytes=+1-+2'.hex(), 'd': b'foobarbaz'.hex(), 'ct': 'text/plain', 'flags': {}}
-W_LAX2 = {'k': 'prep', 'v': b'bytes=1_0-1_1'.hex(), 'd': (b'foobarbaz' * 2).hex(), 'ct': 'text/plain', 'flags': {}}
-W_UNIT = {'k': 'prep', 'v': b'=1-2'.hex(), 'd': b'foobarbaz'.hex(), 'ct': 'text/plain', 'flags': {}}
-WITNESSES = [('C20-lax-integer-syntax', W_LAX1), ('C20-lax-integer-syntax', W_LAX2), ('C20-range-unit-not-validated', W_UNIT)]
+# no known findings: the failing inputs of the two repaired ones (C20-lax-integer-syntax, C20-range-unit-not-validated) are corpus/C20/*.json
+WITNESSES = []
 
 CTYPES = ['text/plain; charset=UTF-8', 'text/plain', 'application/octet-stream', 'application/x-foo', 'image/png']
 FLAGS = ['resp10', 'req10', 'status', 'post', 'noetag', 'lastmod', 'arset', 'chunked', 'list']
@@ -149,6 +149,42 @@ HAND = [b'bytes=-', b'bytes=x', b'bytes=-1-5', b'bytes=1--5', b'bytes=2-1', b'by
 	b'a"b=1-2,3-4', b'bytes=1-\x0b2', b'bytes=\x0c1-2', b'bytes=1-2\r\n', b'bytes=00-1', b'bytes=0-00', b'bytes=-00', b'bytes=000-', b'bytes=1-,-2', b'bytes=-2,1-', b'bytes=9-,0-4', b'bytes=0-4,9-']
 
 
+# byte positions that are not 1*DIGIT (each must make the field invalid) ...
+POS_BAD = [b'+1', b'+01', b'+10', b'1_0', b'1_1', b'0_1', b'_1', b'1_', b'1__0', b'1_0_0', b'+1_0', b'1 0', b'1\t0', b'1\n0', b'\xb2', b'\xb9', b'1\xb2', b'\xb21', b'\xd9\xa1', b'\xd9\xa1\xd9\xa2',
+	b'\xef\xbc\x91', b'\xe0\xa5\xa7', b'\xa01', b'1\xa0', b'\x85' + b'1', b'0x1', b'0X10', b'0b1', b'0o1', b'1e1', b'1E1', b'1.0', b'1.', b'.1', b'1L', b'1l', b'--1', b'+-1', b'-+1', b'++1', b'+ 1', b'+', b'_', b'1+',
+	b'1-', b'\x001', b'1\x00', b'1\x1c', b'\x1c1', b'1\x1f', b'one', b'1a', b'a1', b'"1"', b"'1'", b'1;', b'(1)', b'1/1', b'1*', b'*']
+# ... and white space around a position, which Range.parse strips on purpose (these stay valid and denote the number)
+POS_PAD = [b' 10', b'10 ', b'\t10', b'10\t', b' \t 10 \t ', b'\x0b10', b'10\x0c', b'\r10', b'10\n', b'010', b'0010']
+# range units: not a token at all (invalid field) ...
+UNIT_BAD = [b'', b' ', b'\t', b'by tes', b'bytes ', b' bytes', b'\tbytes', b'bytes\t', b'bytes\n', b'\nbytes', b'by\ttes', b'b,ytes', b'bytes,', b',bytes', b'bytes;', b'bytes;x', b'"bytes"', b'"', b'by"tes', b'(bytes)', b'bytes/1',
+	b'bytes:', b'<bytes>', b'bytes@', b'[bytes]', b'bytes?', b'{bytes}', b'by\\tes', b'b\x00s', b'bytes\x00', b'\x00', b'bytes\x7f', b'bytes\xff', b'\xe9', b'byt\xc3\xa9s', b'\x0bbytes', b'bytes\x0c', b'bytes\r', b'bytes bytes']
+# ... a token that is not the bytes unit (RFC 7233 3.1: not understood -> the field is ignored) ...
+UNIT_FOREIGN = [b'bits', b'items', b'none', b'byte', b'bytess', b'xbytes', b'bytes0', b'b', b'x', b'0', b'1-2', b'-', b'bytes-', b'bytes.', b'bytes_', b'bytes+', b"!#$%&'*+-.^_`|~", b'BITS', b'octets', b'seconds', b'lines', b'bytes!',
+	b'by_tes', b'by-tes', b'1', b'+1', b'bytes~', b'bytes|', b'`bytes`', b'^bytes', b'by*tes']
+# ... and the bytes unit in another case (unit names are case-insensitive: served as bytes)
+UNIT_CASE = [b'BYTES', b'Bytes', b'bYTES', b'bytES', b'byteS', b'BYtes', b'bYtEs', b'ByTeS']
+RANGE_SETS = [b'1-2', b'0-3', b'10-19', b'0-1,4-5', b'0-2, 10-12', b'-3', b'5-', b' 1 - 2 ']
+
+
+def _repaired_families(rng):
+	"""the input classes of the two repaired findings, systematically: every bad / padded position text in every position of a range-spec
+	(first, last, suffix length, open-ended, inside a list of two) and every unit class in front of every range set"""
+	vals = []
+	for p in POS_BAD + POS_PAD:
+		vals += [b'bytes=' + p + b'-20', b'bytes=0-' + p, b'bytes=-' + p, b'bytes=' + p + b'-', b'bytes=0-1, ' + p + b'-11', b'bytes=' + p + b'-11,20-21', b'bytes=' + p + b'-' + p]
+	for u in UNIT_BAD + UNIT_FOREIGN + UNIT_CASE + [b'bytes']:
+		for rset in RANGE_SETS:
+			vals.append(u + b'=' + rset)
+	for u in UNIT_BAD[:8] + UNIT_FOREIGN[:8] + UNIT_CASE[:3]:
+		for p in POS_BAD[:6]:
+			vals.append(u + b'=' + p + b'-20')
+	out = []
+	for v in vals:
+		out.append({'k': 'parse', 'v': v.hex()})
+		out.append({'k': 'prep', 'v': v.hex(), 'd': _rdata(rng, 40).hex(), 'ct': 'text/plain', 'flags': {}})
+	return out
+
+
 def gen_cases(rng, tier):
 	big = tier == 'thorough'
 	cases = []
@@ -179,7 +215,7 @@ def gen_cases(rng, tier):
 				specs.append(b'-%d' % a)
 			else:
 				specs.append(b'%d-' % a)
-		v = rng.choice([b'bytes', b'bytes', b'bytes', b'bits', b'', b'x y']) + b'=' + _sep(rng).join(specs)
+		v = rng.choice([b'bytes', b'bytes', b'bytes', b'bytes', b'bits', b'', b'x y', rng.choice(UNIT_BAD), rng.choice(UNIT_FOREIGN), rng.choice(UNIT_CASE)]) + b'=' + _sep(rng).join(specs)
 		if rng.random() < 0.35:
 			v = _mutate(rng, v)
 		cases.append({'k': 'parse', 'v': v.hex()})
@@ -247,10 +283,18 @@ def gen_cases(rng, tier):
 	# malformed stream through prepare()
 	for v in HAND:
 		cases.append({'k': 'prep', 'v': v.hex(), 'd': _rdata(rng, rng.randint(8, 30)).hex(), 'ct': 'text/plain', 'flags': {}})
+	cases.extend(_repaired_families(rng))
 	for _ in range(4000 if big else 500):
 		n = rng.randint(4, 40)
 		rs = _disjoint(rng, n, rng.randint(1, 3)) or [(0, 1)]
-		v = _mutate(rng, b'bytes=' + _sep(rng).join(b'%d-%d' % x for x in rs))
+		r = rng.random()
+		if r < 0.7:
+			v = _mutate(rng, b'bytes=' + _sep(rng).join(b'%d-%d' % x for x in rs))
+		elif r < 0.85:  # in-bounds ranges whose positions carry int() laxness or padding
+			deco = lambda x: rng.choice([b'+%d', b'%d', b'0%d', b' %d', b'%d ', b'+0%d', b'%d_', b'_%d', b'+ %d']) % x if x < 10 or rng.random() < 0.5 else b'_'.join(bytes([c]) for c in b'%d' % x)
+			v = b'bytes=' + _sep(rng).join(deco(f) + b'-' + deco(l) for f, l in rs)
+		else:  # in-bounds ranges behind another unit
+			v = rng.choice(UNIT_BAD + UNIT_FOREIGN + UNIT_CASE) + b'=' + _sep(rng).join(b'%d-%d' % x for x in rs)
 		cases.append({'k': 'prep', 'v': v.hex(), 'd': _rdata(rng, n).hex(), 'ct': 'text/plain', 'flags': {}})
 	# preconditions
 	for _ in range(1500 if big else 300):
@@ -457,9 +501,21 @@ def oracle(c, o):
 	if v is None:
 		return None
 	# clause 3: a syntactically invalid Range field never yields a partial response
+	unit, eq, rest = v.partition(b'=')
 	if not LENIENT.fullmatch(v):
 		if st == 206:
-			return 'invalid-206: syntactically invalid Range %r answered with 206' % (v,)
+			if not TOKEN.fullmatch(unit):
+				return 'invalid-206 (the range unit is not a token): syntactically invalid Range %r answered with 206' % (v,)
+			return 'invalid-206 (range set outside the grammar, byte positions are 1*DIGIT): syntactically invalid Range %r answered with 206' % (v,)
+		return None
+	# RFC 7233 3.1: a range unit that is not understood is never served (unit names are case-insensitive) ...
+	if unit.lower() != b'bytes':
+		if st == 206:
+			return 'foreign-unit-206: a Range field whose range unit is not bytes was answered with 206 as if it were bytes: %r' % (v,)
+		# ... the field is ignored: for one closed range first < last nothing else (overlap / spread rules) can interfere
+		m = CLOSED.fullmatch(rest)
+		if m and int(m.group(1)) < int(m.group(2)) and (st != o['before'] or body != d or o['cr'] is not None):
+			return 'foreign-unit-not-ignored: a Range field whose range unit is not bytes changed the response: %r (status %d, Content-Range %r, %d body octets)' % (v, st, o['cr'] and bytes.fromhex(o['cr']), len(body))
 		return None
 	if not ok_pre:
 		return None
@@ -512,17 +568,7 @@ def oracle(c, o):
 
 
 def classify(c, o, fail):
-	if c['k'] != 'prep' or c['v'] is None or not fail.startswith('invalid-206'):
-		return None
-	v = bytes.fromhex(c['v'])
-	unit, eq, rest = v.partition(b'=')
-	if not TOKEN.fullmatch(unit) and eq and LENIENT.fullmatch(b'bytes=' + rest):
-		return 'C20-range-unit-not-validated'
-	# int() laxness: "+" signs and single underscores between digits
-	relaxed = re.sub(rb'(?<=[0-9])_(?=[0-9])', b'', rest).replace(b'+', b'')
-	if (b'+' in rest or b'_' in rest) and LENIENT.fullmatch((unit if TOKEN.fullmatch(unit) else b'bytes') + b'=' + relaxed):
-		return 'C20-lax-integer-syntax' if TOKEN.fullmatch(unit) else 'C20-range-unit-not-validated'
-	return None
+	return None  # no known findings (known_findings.d/C20.json): every oracle failure is a violation
 
 
 def nontrivial(c, o):
@@ -539,7 +585,8 @@ LEVEL_TEXT = ('Machine-checked Coq theorems about a Gallina model of Range.parse
 	'ComposedResponse.prepare_ranges / Multipart.encode, for representations and positions of any size: a request "bytes=first-last" with first < last < length '
 	'under the range preconditions gives 206, exactly the slice, its length and "bytes first-last/length"; an accepted set of ranges gives the multipart body whose '
 	'parts are exactly the slices in strictly ascending order; a Range value that Range.parse refuses never gives 206, and every value outside the lenient RFC 7233 '
-	'grammar is refused unless it uses the int() laxness or an unvalidated unit (two known findings, refuted with witnesses). The model is tied to /repo on every run.')
+	'grammar (white space tolerated) is refused by the repaired code (byte positions must be digits, the unit must be a token; a unit other than bytes is not served); the model carries a variant per repair, '
+	'chosen by a T1 probe of /repo on every run, and the as-found variants keep their partial theorem and refuting witnesses.')
 LEVEL_NOTE = ('Trusted: Coq kernel + vm_compute; T1 tables and the T2 harness; io.BytesIO as list slicing; the multipart boundary is an arbitrary parameter. '
 	'No axioms (Print Assumptions: closed).')
 TECHNIQUE = 'Coq proof on a Gallina model + vm_compute correspondence against the implementation'
